@@ -168,12 +168,17 @@ def run_own_message_sources(sh):
             sh.nontrivial(["own", text, specs[k + j]["style"]])
 
 
-def check_trace(sh, prog_text, syntax, quiet, res, expect, line_key, fname, what):
+def check_trace(sh, prog_text, syntax, quiet, res, expect, line_key, fname, what, spec=None):
     """Logger events vs model trace incl. file + line"""
     sh.ev()
     from ..core import h64
     h = "%016x" % h64(prog_text + syntax + str(quiet) + what)
     rp = {"text": prog_text, "syntax": syntax, "quiet": quiet}
+    if spec is not None:
+        # case-level replay: the exact request plus the expected trace
+        rp = {"trace_case": {"spec": spec, "prog_text": prog_text, "syntax": syntax, "quiet": quiet, "fname": fname, "what": what,
+                             "want": None if isinstance(expect, list) else [(k, fname, s.line.get(line_key), m) for k, m, s in expect["log"]],
+                             "status": None if isinstance(expect, list) else expect["status"]}}
     facts = {"program": prog_text, "syntax": syntax, "quiet": quiet}
     if "fd12" in res:
         sh.violation("writes-to-stdio:" + h, "custom Logger in use but the library wrote to stdout/stderr: %r" % res["fd12"][:200], rp, dict(facts, fd12=res["fd12"][:400]))
@@ -188,7 +193,7 @@ def check_trace(sh, prog_text, syntax, quiet, res, expect, line_key, fname, what
     if ("err" in res) != (expect["status"] == "error") or "panic" in res:
         sh.inconc("status-differs-(C03-subject)")
         return
-    want = [(k, fname, s.line.get(line_key), m) for k, m, s in expect["log"]]
+    want = expect["want"] if "want" in expect else [(k, fname, s.line.get(line_key), m) for k, m, s in expect["log"]]
     cw = _collapse(want)
     cg = _collapse(got)
     if cw != cg:
@@ -297,8 +302,8 @@ def run(sh):
             specs.append({"entry": "/p/main.scss", "files": {"/p/main.scss": '%s "sub/dep";\n' % how, path: body}, "quiet": quiet, "budgets": {"steps": 500000}})
             meta.append((body, ext, quiet, expect, key_, path, how + ":" + nl_name))
         rs = sh.w.batch(specs)
-        for (text, syn, quiet, expect, lk, fname, what), r in zip(meta, rs):
-            check_trace(sh, text, syn, quiet, r, expect, lk, fname, what)
+        for (text, syn, quiet, expect, lk, fname, what), r, spec in zip(meta, rs, specs):
+            check_trace(sh, text, syn, quiet, r, expect, lk, fname, what, spec)
             if n < 2 and expect["log"] and not quiet and what == "entry":
                 sh.sample({"program": text[:500], "expected_trace": [(k, fname, s.line.get(lk), m) for k, m, s in expect["log"]][:5]})
                 n += 1
@@ -306,6 +311,15 @@ def run(sh):
 
 def replay(sh, payload):
     r = payload["replay"]
+    if "trace_case" in r:
+        from ..core import rejudge
+        c = r["trace_case"]
+        res = sh.w.compile(c["spec"])
+        print(c["prog_text"])
+        print("observed log:", res.get("log"))
+        print("expected:", c["want"])
+        expect = {"want": [tuple(x) for x in c["want"]], "status": c["status"], "log": []}
+        return rejudge(sh, lambda: check_trace(sh, c["prog_text"], c["syntax"], c["quiet"], res, expect, None, c["fname"], c["what"]))
     if "spec" in r:
         print(sh.w.compile({k: v for k, v in r["spec"].items() if not k.startswith("_")}))
     elif "files" in r:
